@@ -141,9 +141,11 @@ Proof.
   unfold committed_in. induction ws as [|w ws IH]; [reflexivity|]. cbn [existsb find]. intros H. apply Bool.orb_false_iff in H as [H1 H2].
   rewrite H1. apply IH; exact H2.
 Qed.
+Lemma opt_eqb_eq a b : opt_eqb a b = true -> a = b.
+Proof. destruct a, b; cbn; try discriminate; [intros H; apply N.eqb_eq in H; congruence|reflexivity]. Qed.
 Lemma wf_storeb_wf st : wf_storeb st = true -> wf_store st.
 Proof.
-  unfold wf_storeb. rewrite !Bool.andb_true_iff, !forallb_forall. intros [[H1 H2] H3].
+  unfold wf_storeb. rewrite !Bool.andb_true_iff, !forallb_forall. intros [[[H1 H2] H3] H4].
   assert (P : forall r1 r2, In r1 st -> In r2 st -> w23_pair r1 r2 = true).
   { intros r1 r2 Hin1 Hin2. specialize (H3 r1 Hin1). rewrite forallb_forall in H3. apply H3; exact Hin2. }
   constructor.
@@ -157,4 +159,11 @@ Proof.
     rewrite Hl1, Hl2, Hp1, Hp2 in P. apply N.eqb_eq in Ht. rewrite Ht in P. cbn in P.
     apply Bool.orb_true_iff in P as [P|P]; [|apply bytes_eqb_eq; exact P].
     apply Bool.negb_true_iff, bytes_eqb_false in P. contradiction.
+  - intros r l k1 k2 c1 c2 Hin Hl Ha Hk1 Hk2 A1 A2. specialize (H4 r Hin). unfold w4_rec in H4. rewrite Hl, Ha in H4.
+    apply Bool.andb_true_iff in H4 as [_ H4]. rewrite forallb_forall in H4.
+    assert (I1 : In (SMissing c1) (map (sec_answer_of st (l_start l)) (l_secs l))) by (rewrite <- A1; apply in_map; exact Hk1).
+    assert (I2 : In (SMissing c2) (map (sec_answer_of st (l_start l)) (l_secs l))) by (rewrite <- A2; apply in_map; exact Hk2).
+    specialize (H4 _ I1). rewrite forallb_forall in H4. specialize (H4 _ I2). apply opt_eqb_eq; exact H4.
+  - intros r l Hin Hl Ha. specialize (H4 r Hin). unfold w4_rec in H4. rewrite Hl, Ha in H4.
+    apply Bool.andb_true_iff in H4 as [H4 _]. apply Bool.negb_true_iff; exact H4.
 Qed.
